@@ -1995,6 +1995,9 @@ class StridedInterval:
             if shift_amount.upper_bound >= 0:
                 return (0, self.bits)
             return (self.bits, self.bits)
+        if shift_amount.lower_bound > shift_amount.upper_bound:
+            # the amounts wrap past zero: both 0 and the largest value of the width are among them
+            return (0, self.bits)
         return (round(self.bits, shift_amount.lower_bound), round(self.bits, shift_amount.upper_bound))
 
     @reversed_processor
